@@ -211,11 +211,20 @@ func cmdActObs(args []string) {
 		Valuate(c, r, true)
 		c.NestRule = 0
 		o := &actObs{ID: c.ID}
+		lastAct := map[string]string{}
 		for i := range c.Rules {
-			c.Rules[i].RawAct = randomActionText(r, len(c.Rules[i].Rhs))
+			// alternatives of one nonterminal with equally long right-hand sides often get the very same action text
+			// (the substituted texts still differ where the symbols' tags differ)
+			sameKey := fmt.Sprintf("%s/%d", c.Rules[i].Lhs, len(c.Rules[i].Rhs))
+			if prev, ok := lastAct[sameKey]; ok && r.Intn(2) == 0 {
+				c.Rules[i].RawAct = prev
+			} else {
+				c.Rules[i].RawAct = randomActionText(r, len(c.Rules[i].Rhs))
+			}
 			if c.Rules[i].RawAct == "" {
 				c.Rules[i].RawAct = "x"
 			}
+			lastAct[sameKey] = c.Rules[i].RawAct
 			ar := actRule{Lhs: c.Rules[i].Lhs, LTag: runes(c.tagOf(c.Rules[i].Lhs)), N: len(c.Rules[i].Rhs), Act: runes("{ " + c.Rules[i].RawAct + " }"), RTags: [][]int{}}
 			for _, s := range c.Rules[i].Rhs {
 				ar.RTags = append(ar.RTags, runes(c.tagOf(s)))
